@@ -389,7 +389,7 @@ static void runCase(const Case& cs) {
     g_sh->finished.store(1);
   }
   openGate();
-  g_rec[cs.len].how = detAt;     // slot len: bookkeeping
+  g_rec[cs.len].how = (cs.load == 1 || cs.N == 0) ? detAt : -1;     // slot len: bookkeeping (idle pools with threads: nothing is deterministic)
   // the task sets' destructors wait for the blockers
 }
 
@@ -403,7 +403,8 @@ static void report(const Case& cs, const char* status) {
     int j = i;
     while (j + 1 < cs.len && g_rec[j + 1].fa != 0 && g_rec[j + 1].how == g_rec[i].how &&
            ((g_rec[i].how == 1 || g_rec[i].how == 3)
-                ? (g_rec[j + 1].tid == g_rec[j].tid && g_rec[j + 1].nS == g_rec[j].nS + 1 && (g_rec[i].how == 3 || g_rec[j + 1].rec == g_rec[j].rec))
+                ? (g_rec[j + 1].tid == g_rec[j].tid && g_rec[j + 1].nS == g_rec[j].nS + 1 && (g_rec[i].how == 3 || g_rec[j + 1].rec == g_rec[j].rec) &&
+                   (j == i || g_rec[j + 1].g - g_rec[j].g == g_rec[i + 1].g - g_rec[i].g))   // uniform inlineDepth step inside a segment
                 : (g_rec[j + 1].nS == g_rec[j].nS && g_rec[j + 1].g == g_rec[j].g &&
                    (g_rec[j + 1].nW == g_rec[j].nW || (cs.site == WAITNEST && g_rec[j + 1].tid == g_rec[j].tid && g_rec[j + 1].nW == g_rec[j].nW + 1)))))
       ++j;
